@@ -63,22 +63,23 @@ func (w *runWorld) removeKey(key string) bool {
 }
 
 type runWorld struct {
-	c       *core.Ctx
-	k       keyedAPI
-	plain   *keyed.Keyed[string, int]
-	rcv     *keyed.KeyedRefCount[string, int]
-	refs    []*runRef
-	nkeys   int
-	removes map[string][]*ival // KeyedRefCount.RemoveKey calls per key (they drop every reference)
-	delay   int64
-	incOf   map[string]*incarnation // current incarnation per key (updated inside constructor calls, i.e. in lock order)
-	nInc    int
-	insts   []*rinst
-	gates   []chan struct{}
-	inReset map[*simrt.Task]bool
-	ctxTag  int
-	ctxs    map[int]context.Context
-	nextTok int
+	c          *core.Ctx
+	k          keyedAPI
+	plain      *keyed.Keyed[string, int]
+	rcv        *keyed.KeyedRefCount[string, int]
+	refs       []*runRef
+	rootCancel context.CancelFunc
+	nkeys      int
+	removes    map[string][]*ival // KeyedRefCount.RemoveKey calls per key (they drop every reference)
+	delay      int64
+	incOf      map[string]*incarnation // current incarnation per key (updated inside constructor calls, i.e. in lock order)
+	nInc       int
+	insts      []*rinst
+	gates      []chan struct{}
+	inReset    map[*simrt.Task]bool
+	ctxTag     int
+	ctxs       map[int]context.Context
+	nextTok    int
 }
 
 func (w *runWorld) ctor(key string) (keyed.Routine, int) {
@@ -306,10 +307,19 @@ func (w *runWorld) ctxStep(i int) {
 		if i == 0 && c.S.PlanP(800) {
 			op = 0 // most runs start by giving the container a context
 		}
+		if w.rootCancel != nil && w.ctxTag != 0 && c.S.FaultP(100) {
+			// the owner cancels the context the container was given (the container notices lazily)
+			c.Descf("ctx-driver: root-cancel ctx%d", w.ctxTag)
+			c.S.Count("fault:root-cancel")
+			w.rootCancel()
+			w.rootCancel = nil
+			return
+		}
 		switch op {
 		case 0, 1, 2:
 			tag := len(w.ctxs) + 1
-			ctx, _ := core.TaggedContext(context.Background(), tag)
+			ctx, cancel := core.TaggedContext(context.Background(), tag)
+			w.rootCancel = cancel
 			w.ctxs[tag] = ctx
 			restart := c.S.PlanP(400)
 			inv := c.Tick()
